@@ -16,6 +16,8 @@ EXTENDS Bytes
 JX(k, b) == [k |-> k, b |-> b, e |-> <<>>]
 JArr(es) == [k |-> "arr", b |-> <<>>, e |-> [i \in 1..Len(es) |-> [nk |-> "none", n |-> <<>>, v |-> es[i]]]]
 JObj(ms) == [k |-> "obj", b |-> <<>>, e |-> ms]
+\* an object whose members after the first np are filled-in defaults (their order is not fixed)
+JObjNp(ms, np) == [k |-> "obj", b |-> <<>>, e |-> ms, np |-> np]
 JMem(nk, n, v) == [nk |-> nk, n |-> n, v |-> v]
 
 RECURSIVE JMatch(_, _)
@@ -27,10 +29,11 @@ JMatch(d, x) ==
   ELSE IF x.k = "intstr" THEN d.k = "str" /\ d.isint /\ d.i = x.b
   ELSE IF x.k \in {"str", "b64"} THEN d.k = "str" /\ d.b = x.b          \* "b64": a string holding base64 text
   ELSE IF x.k = "arr" THEN d.k = "arr" /\ Len(d.e) = Len(x.e) /\ \A i \in 1..Len(x.e) : JMatch(d.e[i].v, x.e[i].v)
-  ELSE /\ d.k = "obj" /\ Len(d.e) = Len(x.e)
-       /\ \A i \in 1..Len(x.e) :
-            /\ IF x.e[i].nk = "int" THEN d.e[i].nisint /\ d.e[i].ni = x.e[i].n ELSE d.e[i].n = x.e[i].n
-            /\ JMatch(d.e[i].v, x.e[i].v)
+  ELSE LET np == IF "np" \in DOMAIN x THEN x.np ELSE Len(x.e)
+           NameOk(dm, xm) == IF xm.nk = "int" THEN dm.nisint /\ dm.ni = xm.n ELSE dm.n = xm.n IN
+       /\ d.k = "obj" /\ Len(d.e) = Len(x.e)
+       /\ \A i \in 1..np : NameOk(d.e[i], x.e[i]) /\ JMatch(d.e[i].v, x.e[i].v)
+       /\ \A i \in (np + 1)..Len(x.e) : \E j \in (np + 1)..Len(d.e) : NameOk(d.e[j], x.e[i]) /\ JMatch(d.e[j].v, x.e[i].v)
 \* same, but the members from position np+1 on may appear in any order (zero/default-filled fields)
 JMatchTail(d, x, np) ==
   /\ d.k = "obj" /\ Len(d.e) = Len(x.e)
